@@ -57,7 +57,8 @@ def run(chk, binary, sched, label, module, consts, invariants, replay_kind, race
             json.dumps(viol["cmds"][-1]) if viol["cmds"] else "init")
         rs = {k: v2 for k, v2 in sched.items() if k not in strip}
         rs["behaviours"] = [viol["cmds"]]
-        chk.violation({"kind": replay_kind, "binary": binary, "module": module, "sched": rs,
+        chk.violation({"kind": replay_kind, "binary": binary, "module": module, "sched": rs, "seed": chk.seed,
+                       "full_sched": {k: v2 for k, v2 in sched.items() if k != "behaviours"},
                        "consts": {k: sorted(x) if isinstance(x, (set, frozenset)) else x
                                   for k, x in consts.items() if not isinstance(x, (vp.Sub, vp.Raw))},
                        "invariants": list(invariants)}, why)
